@@ -138,7 +138,7 @@ def glob_of(rng, name: str) -> str:
         neg = rng.random() < 0.2
         cls = "[" + ("!" if neg and rng.random() < 0.5 else "^" if neg else "") + (f"{lo}-{hi}" if lo != hi else c + "_") + "]"
         return esc_lit(name[:i]) + cls + esc_lit(name[i + 1:])
-    return esc_lit(name[:i]) + "**" + esc_lit(name[i + 1:]) if rng.random() < 0.3 else esc_lit(name)
+    return esc_lit(name)
 
 
 def gen_pattern(rng, dirs, files, root=("r",)):
@@ -267,7 +267,7 @@ def gen_case(rng, malformed=False):
                 i = rng.randrange(len(lines))
                 s = lines[i]
                 j = rng.randint(0, len(s))
-                lines[i] = s[:j] + rng.choice(["\\", "\\/", "[", "]", "***", " ", "//", "!", "\t", "[a-", "[]"]) + s[j:]
+                lines[i] = s[:j] + rng.choice(["\\", "\\/", "[", "]", "***", "**", " ", "//", "!", "\t", "[a-", "[]"]) + s[j:]
     # queries: every entry, under several spellings
     queries = []
     paths = [e[0] for e in entries]
@@ -311,7 +311,7 @@ class C09(Check):
     assumptions = [
         "pathspec 0.12.1 GitIgnoreSpec, pathlib.Path.resolve/rglob/is_relative_to and os.path.realpath are modelled, not verified",
         "pattern lines are inside the supported grammar (Lib/C09_glob.v: printable ASCII, no leading blank, no bracket "
-        "expression beyond plain characters/ascending alphanumeric ranges, no run of three or more stars as a segment, no "
+        "expression beyond plain characters/ascending alphanumeric ranges, no two adjacent stars other than the segment '**', no "
         "tab or other control character); other lines are counted as unsupported",
         "code-base directories are existing directories, none inside another; the tree has no symbolic-link cycle "
         "(cases outside are compared I vs M only)",
@@ -594,7 +594,7 @@ class C09(Check):
     def self_tests(self):
         if shutil.which("git") is None:
             return ["git not available: S not validated against git check-ignore"]
-        n = 60 if self.tier == "quick" else 1500
+        n = 150 if self.tier == "quick" else 4000
         cases = []
         for a in ATOMS:                                   # every atom alone and after/before a negation
             cases.append([FIXED_TREE, [], ["/r"], [a], []])
